@@ -14,6 +14,7 @@ CLUSTER_NOTE = ("Sequentially consistent interleavings, deviation-bounded at coa
                 "in-process transports; one shard, <=4 nodes, one fault per scenario; virtual time.")
 T_SCHED = "stateless model checking of the implementation (controlled cooperative scheduler, deviation-bounded DFS over schedules)"
 T_FSM = "explicit-state model checking of the follower controller as a protocol state machine (all event sequences up to a depth replayed on the real controller against a list model)"
+LEADER_FSM = " A leader-conformance stage replays every sequence of leader protocol events (new term; election with one of 9 ensemble shapes: followers level, one entry behind, empty, at the end of an older term, holding a longer uncommitted tail of an older term, down; client put; put and election while no follower answers; restart; crash) up to the depth from a two-term start state on a real leader controller against checking followers that verify every truncation, append and snapshot they are sent."
 NODE_FSM = " A further stage searches the whole node as a protocol state machine across its roles (11 events: NewTerm next/same/stale, BecomeLeader current/stale, client puts and gets, appends while following, restart, crash; every sequence up to the depth on a real server with two scripted acknowledging followers): term monotone, stale requests refused, no write on a non-leader, database == fold of the node's own log, acknowledged writes readable with their value and version whenever the node leads."
 T_SEQX = "explicit-state model checking of the implementation (BFS over operation sequences with state de-duplication against a reference model)"
 
@@ -25,10 +26,10 @@ def add(pid, stages, level, text, ref, note, technique, engine):
 add('C01', ['C01', 'C01N'], 'exploration',
     "Stateless exploration of a real cluster (3-4 real server.Server nodes: shards director, leader/follower controllers, WAL, Pebble on a crash-simulating filesystem; the real coordinator ShardController with a real StatusResource over the memory metadata provider; in-process transports) under the cooperative scheduler: 2 concurrent client writers (two-operation requests, with secondary-index entries) plus one fault per scenario (leader crash, crash+restart, spurious failover, swap of a follower / of the leader, swap with unreachable members, coordinator crash mid-election, lost NewTerm / BecomeLeader answers, the answer of any one coordinator RPC lost (which one is enumerated), a replication connection dropping under any one message (which one is enumerated), BecomeLeader timing out on a partitioned candidate, rolling isolation over four terms, swap + restore from snapshot + the new node leading); every schedule with <=1 (thorough <=2) non-default coarse scheduling choices; every acknowledged write must be present on every node that becomes leader later and on the final leader after healing.",
     "DESIGN.md §2.5, §3 C01", CLUSTER_NOTE, T_SCHED + " over real servers and coordinator with crash/fault injection", 'sched')
-add('C02', ['C02', 'C02S', 'C02N'], 'exploration',
+add('C02', ['C02', 'C02S', 'C02N', 'C02L'], 'exploration',
     "Stage 1: same cluster executions with clients issuing colliding puts and gets; invoke/return stamped by scheduler step; per-key linearizability decided by porcupine (unknown outcomes may take effect once or never); stale reads only from deposed leaders; no read may return a value that is absent from the final committed log. Stage 2: fine-grained schedules of writers colliding on one key on a real RF=3 leader: the state reads are served from equals the fold of the committed log, responses match their requests.",
     "DESIGN.md §3 C02", CLUSTER_NOTE, T_SCHED + " + porcupine linearizability checking of every explored history", 'sched')
-add('C03', ['C03', 'C03F'], 'exploration',
+add('C03', ['C03', 'C03F', 'C03L'], 'exploration',
     "Stage 1: same cluster executions; at the instant a follower hands Ack(o) to a term-T stream its synced log must equal the term-T leader's log at every offset <= o (shadow logs recorded at the WAL seam); committed prefixes of all replicas are compared with the final leader at the end. Stage 2: explicit-state search of the follower as a protocol state machine (every sequence of 13 protocol events - new-term requests, appends of current / stale terms, truncation and its re-delivery, complete / interrupted / stale-term snapshot transfers, restart, crash - up to the depth, on a real follower controller): acknowledged entries stay stored with their leader's entry, the database is the fold of what the node holds.",
     "DESIGN.md §3 C03, §7", CLUSTER_NOTE, T_SCHED + " + " + T_FSM, 'sched+fsm')
 add('C04', ['C04', 'C04F', 'C04N'], 'exploration',
@@ -114,11 +115,11 @@ for p in props:
         "evidence_file": f"/verif/evidence/{pid}.json",
         "replay_cmd_template": f"./check {stages[0]} --replay {{path}}",
         "engine": c['engine'],
-        "level_claimed": {"category": level, "text": c['text'] + (NODE_FSM if any(x.endswith('N') for x in stages) else ''), "design_ref": c['ref']},
+        "level_claimed": {"category": level, "text": c['text'] + (NODE_FSM if any(x.endswith('N') for x in stages) else '') + (LEADER_FSM if any(x.endswith('L') for x in stages) else ''), "design_ref": c['ref']},
         "level_note": c['note'],
         "technique": c['technique'] + (" + explicit-state model checking of a whole storage node as a protocol state machine (all event sequences up to a depth replayed on the real server)" if any(x.endswith('N') for x in stages) else ''),
     })
-    for e in c['engine'].split('+') + (['nfsm'] if any(x.endswith('N') for x in stages) else []):
+    for e in c['engine'].split('+') + (['nfsm'] if any(x.endswith('N') for x in stages) else []) + (['lfsm'] if any(x.endswith('L') for x in stages) else []):
         engines.setdefault(e, []).append(pid)
 
 ENG = {
@@ -126,6 +127,7 @@ ENG = {
     'sched': ("/verif/lib/sched + /verif/shim + /verif/tools/vinst + /verif/lib/oxc", "source instrumenter (sync/atomic/time/chan/select/go -> shims), cooperative scheduler with virtual time, deviation-bounded stateless DFS sharded over worker processes, cluster harness of real servers and coordinator"),
     'fsm': ("/verif/lib/ffsm", "explicit-state search over follower protocol events: every event sequence up to a depth replayed from scratch on a real follower controller (under the cooperative scheduler's default schedule) against a list model"),
     'nfsm': ("/verif/lib/nfsm", "explicit-state search over node protocol events: every event sequence up to a depth replayed from scratch on a real server (director, leader and follower controllers) with scripted peers"),
+    'lfsm': ("/verif/lib/lfsm", "explicit-state search over leader protocol events against checking followers that verify every message the real leader controller sends them"),
     'e3': ("/verif/h/c07, /verif/h/c10", "fault enumerators: Pebble strict-FS crash points, WAL crash/corruption images"),
     'enum': ("/verif/h/c11, /verif/h/c13, /verif/h/c19", "exhaustive enumeration of bounded input universes against reference models"),
 }
